@@ -7,17 +7,20 @@
 // package under the build tag "verif").
 package directive
 
-// Clean, cleanKeyword and IsInline are used as deterministic functions of the option and
-// the text (regexp/strings rewriting, not verified here).
+// Clean and cleanKeyword are used as deterministic functions of the option and the text
+// (regexp/strings rewriting, not verified here).
 //@ func (*Option).Clean
 //@   opt prop=C03
 //@   pure
 //@   trusted
 
+// A directive is inline exactly when something other than blanks precedes the #aa: marker
+// on its line (then it guards that rule only); otherwise it guards the paragraph below it.
 //@ func (*Option).IsInline
 //@   opt prop=C03
+//@   requires Keyword == "#aa:"
 //@   pure
-//@   trusted
+//@   ensures result == (len(ext("strings.TrimSpace", before(o.Raw, Keyword))) != 0)
 
 // A filter applies to the build target exactly when it names the target ABI, the target
 // AppArmor version, the target distribution or the target package family.
@@ -32,6 +35,7 @@ package directive
 //@ func filter
 //@   opt prop=C03
 //@   requires opt != nil
+//@   requires Keyword == "#aa:"
 //@   pure
 //@   ensures second(result) == nil
 //@   ensures imp(only == filterRuleForUs(opt), first(result) == Option.Clean(opt, profile))
@@ -41,12 +45,14 @@ package directive
 //@ func (FilterOnly).Apply
 //@   opt prop=C03
 //@   requires opt != nil
+//@   requires Keyword == "#aa:"
 //@   assigns nothing
 //@   ensures first(result) == first(filter(true, opt, profile)) && second(result) == nil
 
 //@ func (FilterExclude).Apply
 //@   opt prop=C03
 //@   requires opt != nil
+//@   requires Keyword == "#aa:"
 //@   assigns nothing
 //@   ensures first(result) == first(filter(false, opt, profile)) && second(result) == nil
 
